@@ -14,7 +14,7 @@ import (
 // Plan is one input.
 type Plan struct {
 	Input string `json:"input"`
-	Kind  string `json:"kind"` // valid | mutated | truncated | raw
+	Kind  string `json:"kind"` // valid | expr | mutated | truncated | raw
 }
 
 // ---------------------------------------------------------------------------
@@ -90,11 +90,120 @@ var rawAlphabet = []string{"{", "}", "(", ")", "[", "]", ":=", ":", ",", ".", "\
 	"if", "elif", "else", "for", "in", "func", "sink", "try", "except", "finally", "otherwise", "mutex", "import", "as", "let", "return", "and", "or", "not",
 	"a", "b1", "1", "1.5", "e", "e+", "1e+", "1e", "2e-", "E+", "1.e+", ".5", "1e+5", "0x", "1..2", "-", "+", "*", "/", "//", "%", "==", "!=", ">=", "<", "\\", "\x00", "\x7f", "\xff", "\xc3", "\xe2\x82", "é", "€", "null", "true", "kindmatch", "priority"}
 
+// expr draws an expression; every expression form can stand in every expression
+// position (operand, argument, list item, map key, map value, index).  *broken counts
+// down: when it reaches zero a map literal with an element that is not a key-value pair
+// is produced at that position.
+func expr(r *simrt.RNG, depth int, broken *int) string {
+	sub := func() string { return expr(r, depth+1, broken) }
+	if *broken >= 0 {
+		*broken--
+		if *broken < 0 {
+			e := expr(r, depth+1, broken)
+			switch r.Intn(4) {
+			case 0:
+				return "{" + e + "}"
+			case 1:
+				return "{\"a\": 1, " + e + "}"
+			case 2:
+				return "{" + e + ", \"b\": 2}"
+			default:
+				return "{ " + e + " : 1 : 2 }"
+			}
+		}
+	}
+	atom := func() string {
+		switch r.Intn(12) {
+		case 0:
+			return fmt.Sprint(r.Intn(10))
+		case 1:
+			return "\"s\""
+		case 2:
+			return "x"
+		case 3:
+			return "foo()"
+		case 4:
+			return "a.b.init()"
+		case 5:
+			return "func () {\n}"
+		case 6:
+			return "func (a) {\n    return a\n}"
+		case 7:
+			return "[]"
+		case 8:
+			return "{}"
+		case 9:
+			return "null"
+		case 10:
+			return "now()"
+		default:
+			return "true"
+		}
+	}
+	if depth >= 3 {
+		return atom()
+	}
+	switch r.Intn(12) {
+	case 0:
+		return "[" + sub() + ", " + sub() + "]"
+	case 1:
+		return "{" + sub() + ": " + sub() + "}"
+	case 2:
+		return "{\"k\": " + sub() + ", " + sub() + ": " + sub() + "}"
+	case 3:
+		return "(" + sub() + ")"
+	case 4:
+		return sub() + " + " + sub()
+	case 5:
+		return "-" + sub()
+	case 6:
+		return "f(" + sub() + ", " + sub() + ")"
+	case 7:
+		return "g(" + sub() + ")[" + sub() + "].k"
+	case 8:
+		return "not " + sub()
+	case 9:
+		return sub() + " == " + sub()
+	default:
+		return atom()
+	}
+}
+
+func exprStatement(r *simrt.RNG) string {
+	broken := -1
+	if r.Bool(0.6) {
+		broken = r.Intn(8)
+	}
+	e := expr(r, 0, &broken)
+	switch r.Intn(6) {
+	case 0:
+		return e
+	case 1:
+		return "return " + e
+	case 2:
+		return "if " + e + " {\n    x := 1\n}"
+	case 3:
+		return "for i in " + e + " {\n}"
+	case 4:
+		return "f(" + e + ")\n[a, b] := g()"
+	default:
+		return "v := " + e
+	}
+}
+
 // GenInput draws one input.
 func GenInput(r *simrt.RNG, tier string) Plan {
 	switch x := r.Intn(100); {
-	case x < 25:
+	case x < 22:
 		return Plan{validProgram(r, tier), "valid"}
+	case x < 32:
+		// expression forms in every expression position, often with one malformed map literal
+		n := 1 + r.Intn(3)
+		var parts []string
+		for i := 0; i < n; i++ {
+			parts = append(parts, exprStatement(r))
+		}
+		return Plan{strings.Join(parts, "\n"), "expr"}
 	case x < 60:
 		src := validProgram(r, tier)
 		toks := parser.LexToList("gen", src)
